@@ -1105,6 +1105,79 @@ def entry_paths(res, hist):
     return n
 
 
+def churn(res, hist):
+    """objects come and go: what was granted to an object that no longer exists must not pass to an unrelated object
+    that happens to live where it lived (objects without a __dict__ - __slots__ classes - included, explicitly yaqlized
+    or handed out by an auto-yaqlizing parent)"""
+    import gc
+    from yaql import yaqlization
+
+    class Slotted(object):
+        __slots__ = ('token', 'n')
+
+        def __init__(self, n):
+            self.token = SECRET + '-slot%d' % n
+            self.n = n
+
+        def get(self):
+            return self.token
+
+    class Plain(object):
+        def __init__(self, n):
+            self.token = SECRET + '-plain%d' % n
+
+    class Parent(object):
+        def __init__(self, cls):
+            self.cls = cls
+
+        def make(self, n):
+            return self.cls(n)
+    eng = yaql.YaqlFactory().create()
+    n = 0
+    for cls in (Slotted, Plain):
+        parent = Parent(cls)
+        yaqlization.yaqlize(parent, auto_yaqlize_result=True)
+        for rnd in range(6):
+            # a generation of objects that ARE granted (or for which granting fails), then dies
+            for i in range(40):
+                o = cls(i)
+                try:
+                    yaqlization.yaqlize(o)
+                except Exception:       # noqa - an object that cannot carry settings
+                    pass
+                ctx = yaql.create_context()
+                ctx['p'] = parent
+                try:
+                    eng('$p.make(%d).token' % i).evaluate(context=ctx)
+                except Exception:       # noqa
+                    pass
+                del o, ctx
+            gc.collect()
+            # a generation of objects that were NEVER granted anything
+            fresh = [cls(1000 + i) for i in range(40)]
+            for c in fresh:
+                for text in ('$c.token', '$c.get()', "$c['token']", '[$c].select($.token)'):
+                    ctx = yaql.create_context()
+                    ctx['c'] = c
+                    try:
+                        out = repr(eng(text).evaluate(context=ctx))
+                    except Exception as x:      # noqa
+                        out = '%s' % type(x).__name__
+                    n += 1
+                    if SECRET in out:
+                        res.fail('oracle', 'churn-reached',
+                                 '%s on a never-yaqlized %s object created after yaqlized objects of its class were freed '
+                                 'returned %s' % (text, 'slotted' if cls is Slotted else 'plain', out[:80]),
+                                 dict(part='churn', text=text))
+                        hist['churn'] = n
+                        return n
+            del fresh
+            gc.collect()
+    res.case('churn', True)
+    hist['churn'] = n
+    return n
+
+
 def lexer_guard(res, hist):
     """a keyword token cannot start with `__` (dynamic side of C07Gen.keyword_guard): `$o.__dx__` does
     not parse, while `$o._x` parses and is refused by the underscore rule"""
@@ -1146,6 +1219,8 @@ def run(env, res):
             res.extra['settings_histogram'] = run_settings(env, res, only=rp)
         elif rp.get('part') == 'A':
             res.extra['sweep_histogram'] = run_sweep(env, res, only=rp)
+        elif rp.get('part') == 'churn':
+            churn(res, dict(evaluations=0))
         elif rp.get('part') == 'entry':
             entry_paths(res, dict(evaluations=0))
         elif rp.get('part') == 'bystander':
@@ -1158,6 +1233,7 @@ def run(env, res):
     bystander(res, hb)
     lexer_guard(res, hb)
     hb['evaluations'] += entry_paths(res, hb)
+    hb['evaluations'] += churn(res, hb)
     res.extra['settings_histogram'] = hb
     ha = run_sweep(env, res)
     res.extra['sweep_histogram'] = ha
